@@ -43,10 +43,10 @@ func VerifC07Slot() {
 		// epoch not skipped by the epoch filter (epoch <= before/432000) and slot >= before
 		c := e.epoch*verifC07EpochLen <= before
 		d := slots[i] >= before
-		inS8 |= verifIteU64(c, 1, 0) & verifIteU64(d, 1, 0)
+		inS8 += verifIteU64(c, verifIteU64(d, 1, 0), 0)
 	}
-	gate := verifIteU64(limit > 0, 1, 0) & verifIteU64(before >= until, 1, 0)
-	verifKnownFinding("C07-S8-slot-upper-bound", inS8&gate != 0)
+	gate := verifIteU64(limit > 0, verifIteU64(before >= until, 1, 0), 0)
+	verifKnownFinding("C07-S8-slot-upper-bound", verifIteU64(gate != 0, inS8, 0) != 0)
 
 	m, err := verifC07Multi(w.readers).GetBeforeUntilSlot(context.Background(), verifC07Pk, limit, before, until, w.fetcher("C07.slot"))
 	verifAssert(err == nil, "C07.slot: GetBeforeUntilSlot failed (an epoch without the address must be skipped)")
@@ -65,7 +65,7 @@ func VerifC07Slot() {
 	// (c) complete up to the limit
 	var inRange uint64
 	for i := range w.hist {
-		inRange += verifIteU64(slots[i] < before, 1, 0) & verifIteU64(slots[i] >= until, 1, 0)
+		inRange += verifIteU64(slots[i] < before, verifIteU64(slots[i] >= until, 1, 0), 0)
 	}
 	lim := verifIteU64(limit > 0, uint64(limit), 0)
 	want := verifIteU64(inRange < lim, inRange, lim)
